@@ -850,6 +850,15 @@ class Engine(
                         # right, reflecting the fact that the derived engine is
                         # supposed to have final say over how we convert
                         # literals.
+                        if step < 0:
+                            # A descending range has the same members as the
+                            # ascending range that starts at its last element.
+                            if start <= stop_exclusive:
+                                return sqlalchemy.sql.literal(False)
+                            last = start + ((start - stop_exclusive - 1) // -step) * step
+                            stop_exclusive = start + 1
+                            start = last
+                            step = -step
                         stop_inclusive = stop_exclusive - 1
                         if start == stop_inclusive:
                             return sql_item == self.convert_column_literal(start)
@@ -860,6 +869,18 @@ class Engine(
                                 self.convert_column_literal(stop_inclusive),
                             )
                             if step != 1:
+                                if start < 0:
+                                    # SQL's % truncates toward zero while
+                                    # Python's floors; keep the dividend
+                                    # non-negative inside the BETWEEN window.
+                                    return sqlalchemy.sql.and_(
+                                        *[
+                                            target,
+                                            (sql_item - self.convert_column_literal(start))
+                                            % self.convert_column_literal(step)
+                                            == self.convert_column_literal(0),
+                                        ]
+                                    )
                                 return sqlalchemy.sql.and_(
                                     *[
                                         target,
